@@ -119,6 +119,41 @@ def gen(rng, tier):
             if op == "pmt.doneall" and len(m) > 400:
                 op = "pmt.done"
             out.append(Case("%s %s" % (op, hx(m)), kind="fid-malformed", decides=False, nontrivial=False))
+    # ---- fidelity, targeted at the boundaries that no well-formed section reaches: a descriptor that ends exactly at the end
+    #      of the section (endPos == len), 4 junk bytes between the last stream and the CRC (offset == bound), an
+    #      ES_info_length of 1 (half a descriptor header)
+    for c, p in list(zip(carriers, payloads))[:nf * 2]:
+        s = c["sec"]
+        if not s["streams"]:
+            continue
+        base = 1 + c["pf"] + sum(3 + len(b) for _, _, b in c["pre"])
+        sl = L.section_length(s)
+        crc_pos = base + 3 + sl - 4
+        pos = base + 12 + L.desc_len(s["pdescs"])
+        starts = []
+        for st, pid, ds in s["streams"]:
+            starts.append(pos)
+            pos += 5 + L.desc_len(ds)
+        muts = []
+        st, pid, ds = s["streams"][-1]
+        if ds and len(ds[-1][1]) <= 251:
+            q = bytearray(p)
+            lp = starts[-1] + 5 + L.desc_len(ds[:-1]) + 1
+            q[lp] += 4
+            muts.append(bytes(q))
+        if sl + 4 <= 1021:
+            q = bytearray(p[:crc_pos] + L.rand_bytes(rng, 4) + p[crc_pos:])
+            q[base + 1] = (q[base + 1] & 0xF0) | ((sl + 4) >> 8)
+            q[base + 2] = (sl + 4) & 0xFF
+            muts.append(bytes(q))
+        if not ds and sl + 1 <= 1021:
+            q = bytearray(p[:crc_pos] + L.rand_bytes(rng, 1) + p[crc_pos:])
+            q[starts[-1] + 4] = 1
+            q[base + 1] = (q[base + 1] & 0xF0) | ((sl + 1) >> 8)
+            q[base + 2] = (sl + 1) & 0xFF
+            muts.append(bytes(q))
+        for m in muts:
+            out.append(Case("pmt.parse %s" % hx(m), kind="fid-boundary", decides=False, nontrivial=False))
     # ---- fidelity: streams outside the hypotheses (no PUSI first, PMT packet without payload flag, short tail)
     for c, p in list(zip(carriers, payloads))[:nf]:
         pid = 256
